@@ -600,3 +600,9 @@ def seq_parts(t):
             if base is not None and len(its) == 1:
                 return base + [("each", x, next(iter(its)))]
     return None
+
+
+def no_uids(t):
+    """('var', name, uids) -> ('var', name): the same variable read at two
+    program points compares equal."""
+    return map_term(t, lambda x: x[:2] if x[0] == "var" else x)
